@@ -102,7 +102,28 @@ func reach(from Site, to func(ssa.Instruction) bool, cuts *Cuts) (bool, []*ssa.B
 // joined condition when every remaining way in carries the same constant:
 // `!a && b()` with the edge into b() cut leaves phi[false] – its true arm is
 // dead too.  Adds those arms to the cuts (to a fixpoint).
-func (c *Cuts) closeBoolPhis(fn *ssa.Function) *Cuts {
+func (c *Cuts) closeBoolPhis(fn *ssa.Function) *Cuts { return c.closeBoolPhisWith(fn, nil) }
+
+// closeBoolPhisWith: as closeBoolPhis; a phi input whose truth is assumed (directly or under a
+// negation) counts like a constant.
+func (c *Cuts) closeBoolPhisWith(fn *ssa.Function, assumed map[ssa.Value]bool) *Cuts {
+	truthOf := func(e ssa.Value) (bool, bool) {
+		if k, isC := e.(*ssa.Const); isC && k.Value != nil {
+			return k.Value.String() == "true", true
+		}
+		neg := false
+		for i := 0; i < 3; i++ {
+			if t, ok := assumed[e]; ok {
+				return t != neg, true
+			}
+			u, isU := e.(*ssa.UnOp)
+			if !isU || u.Op != token.NOT {
+				break
+			}
+			neg, e = !neg, u.X
+		}
+		return false, false
+	}
 	for changed := true; changed; {
 		changed = false
 		// blocks still reachable from the entry
@@ -133,12 +154,12 @@ func (c *Cuts) closeBoolPhis(fn *ssa.Function) *Cuts {
 					continue
 				}
 				nLive++
-				k, isC := e.(*ssa.Const)
-				if !isC || k.Value == nil {
+				tv, known := truthOf(e)
+				if !known {
 					allTrue, allFalse = false, false
 					continue
 				}
-				if k.Value.String() == "true" {
+				if tv {
 					allFalse = false
 				} else {
 					allTrue = false
